@@ -1,12 +1,23 @@
 (* C10 property theorems. This file contains only statements closed by
    [exact lemma] and Print Assumptions.  [split g = Some r] excludes only fuel
    exhaustion of the model (never observed; every correspondence case is Some).
-   [deps_cover g] is the assumption on the linker's input named in the config:
-   a symbol used or exported across files is backed by a part dependency. *)
+   "Dependencies cover uses" (a symbol used or exported across files is backed by a part
+   dependency) is no longer an assumption: see deps_cover_by_construction. *)
 From V Require Import Common.Base C10.BitSet C10.Renamer C10.Split
   C10.BitSetProofs C10.RenamerProofs C10.ListLemmas C10.SplitProofs C10.OrderProofs C10.CrossProofs
   C10.Eval C10.EvalProofs.
 From Coq Require Import Relations.
+
+(* scanImportsAndExports steps 5/6, as completed by the model (Split.part_deps, export_deps):
+   every declared symbol a file uses, and every declared export target of an entry point, is
+   backed by a dependency on the declaring file - for EVERY input, so none of the theorems
+   below assumes it.  (The harness additionally checks on every linker dump that the dumped
+   dependencies alone already have this property: Split.deps_coverb.) *)
+Theorem deps_cover_by_construction : forall g,
+  (forall f s, In s (f_uses (getf g f)) -> is_declared g s = true -> In (fst s) (f_deps g (getf g f))) /\
+  (forall ents e s, In e ents -> In s (entry_exports g e) -> is_declared g s = true -> In (fst s) (export_deps g ents e)).
+Proof. exact deps_cover_holds. Qed.
+Print Assumptions deps_cover_by_construction.
 
 (* helpers.BitSet: HasBit after SetBit, every bit set of every size *)
 Theorem bitset_set_has : forall bs i j, (i < 8 * length bs)%nat ->
@@ -48,7 +59,7 @@ Print Assumptions chunk_files_nodup.
 
 (* a static cross-chunk import goes to a chunk whose entry-point set strictly
    contains the importer's *)
-Theorem import_edge_superset : forall g r i j, split g = Some r -> deps_cover g ->
+Theorem import_edge_superset : forall g r i j, split g = Some r ->
   let a := r_analysis r in
   sedge (r_cross r) i j ->
   (i < length (a_chunks a))%nat /\ (j < length (a_chunks a))%nat /\
@@ -59,13 +70,13 @@ Proof. exact import_edge_superset_all. Qed.
 Print Assumptions import_edge_superset.
 
 (* hence the static import graph of the chunks has no cycle *)
-Theorem static_chunk_graph_acyclic : forall g r, split g = Some r -> deps_cover g ->
+Theorem static_chunk_graph_acyclic : forall g r, split g = Some r ->
   forall i, ~ clos_trans nat (sedge (r_cross r)) i i.
 Proof. exact static_chunk_graph_acyclic_all. Qed.
 Print Assumptions static_chunk_graph_acyclic.
 
 (* and the three-colour check of enforceNoCyclicChunkImports never reports an error *)
-Theorem enforce_never_fires : forall g r, split g = Some r -> deps_cover g ->
+Theorem enforce_never_fires : forall g r, split g = Some r ->
   enforce_cycle_error (r_cross r) = false.
 Proof. exact enforce_never_fires_all. Qed.
 Print Assumptions enforce_never_fires.
@@ -118,7 +129,7 @@ Print Assumptions live_file_reached_by_some_entry.
 
 (* no chunk imports from an entry chunk: entry chunks export only the entry point's own
    exports (full statement; supersedes entry_chunk_no_importers_partial) *)
-Theorem entry_chunk_no_importers : forall g r i j bit e, split g = Some r -> deps_cover g ->
+Theorem entry_chunk_no_importers : forall g r i j bit e, split g = Some r ->
   let a := r_analysis r in
   sedge (r_cross r) i j -> c_entry (nth j (a_chunks a) dchunk) = Some (bit, e) -> False.
 Proof. exact entry_chunk_no_importers_all. Qed.
@@ -166,20 +177,20 @@ Print Assumptions cross_chunk_imports_exact.
    binding is evaluated before every chunk whose code uses it; inside a chunk a file comes
    after the files of the chunk it imports. *)
 Theorem chunk_order_respects_evaluation_refuted :
-  exists g r ci bit e f1 f2, split g = Some r /\ deps_cover g /\
+  exists g r ci bit e f1 f2, split g = Some r /\
     nth_error (map c_entry (a_chunks (r_analysis r))) ci = Some (Some (bit, e)) /\
     beforeb f1 f2 (native_order g e) = true /\ beforeb f2 f1 (split_order r ci) = true.
 Proof. exact chunk_order_respects_evaluation_refuted_all. Qed.
 Print Assumptions chunk_order_respects_evaluation_refuted.
 
-Theorem chunk_eval_respects_imports : forall g r ci, split g = Some r -> deps_cover g ->
+Theorem chunk_eval_respects_imports : forall g r ci, split g = Some r ->
   (ci < length (a_chunks (r_analysis r)))%nat ->
   let out := chunk_eval_order r ci in
   In ci out /\ forall A B, In A out -> sedge (r_cross r) A B -> In B out /\ before B A out.
 Proof. exact chunk_eval_respects_imports_lemma. Qed.
 Print Assumptions chunk_eval_respects_imports.
 
-Theorem binding_chunk_evaluated_first : forall g r ci A B s, split g = Some r -> deps_cover g ->
+Theorem binding_chunk_evaluated_first : forall g r ci A B s, split g = Some r ->
   let a := r_analysis r in
   (ci < length (a_chunks a))%nat -> In A (chunk_eval_order r ci) ->
   (A < length (a_chunks a))%nat ->
@@ -188,7 +199,7 @@ Theorem binding_chunk_evaluated_first : forall g r ci A B s, split g = Some r ->
 Proof. exact binding_chunk_evaluated_first_all. Qed.
 Print Assumptions binding_chunk_evaluated_first.
 
-Theorem binding_file_evaluated_first : forall g r ci A B s f f', split g = Some r -> deps_cover g ->
+Theorem binding_file_evaluated_first : forall g r ci A B s f f', split g = Some r ->
   let a := r_analysis r in
   (ci < length (a_chunks a))%nat -> In A (chunk_eval_order r ci) ->
   (A < length (a_chunks a))%nat ->
